@@ -81,7 +81,9 @@ def _gen_tw(rng):
            str(s).replace("1", "l")]
     return rng.choice([[t, r, s], [str(t), str(r), str(s)], [f"{t}s", r, s],
                        [t, f"{r}e", str(s)], [None, r, s], [t, r, None],
-                       [t, r, 140], ["x", r, s], ocr, ocr])
+                       [t, r, 140], ["x", r, s], ocr, ocr,
+                       # numbers as they come out of a spreadsheet column
+                       [t, r, float(s)], [float(t), r, s], [t, r, True]])
 
 
 def _tw_is_ocr(tw):
@@ -461,6 +463,16 @@ def gen_plan(rng):
             tw2["kw"]["ocr_scrub"] = not tw2["kw"].get("ocr_scrub", False)
             prior.insert(rng.randint(0, len(prior)),
                          {"o": "other", "probe": tw2})
+    for op_ in probe:
+        if op_["p"] in ("trs_from", "tract_set", "tract_from") and any(
+                isinstance(x, (float, bool)) for x in op_["tw"]):
+            # the same components as plain ints, earlier (equal and
+            # equal-hashed to the floats / bools of the probe)
+            tw3 = copy.deepcopy(op_)
+            tw3["tw"] = [int(x) if isinstance(x, (float, bool)) else x
+                         for x in tw3["tw"]]
+            prior.insert(rng.randint(0, len(prior)),
+                         {"o": "other", "probe": tw3})
     for op_ in probe:
         if op_["p"] in ("trslist", "tractlist", "sort_i") and rng.random() < 0.5:
             # the same list operation (same sort key) on other, smaller data
